@@ -238,9 +238,9 @@ def r3b_reader_counters(ctx):
         yield o
 
 RULES = [
-    Rule('C20.R1', 'input is read by path through X12Reader, which opens it in a valid text read mode', r1_open_mode, floor=3),
-    Rule('C20.R2', 'every output option receives the buffer (must-pass-through)', r2_outputs, floor=4),
-    Rule('C20.R3', 'repair table agrees with the reader: codes, tuple position, expressions', r3_repair_table, floor=14),
-    Rule('C20.R3b', 'shared with C04.R1: the reader counters the repair reads are reset/incremented where the envelope says', r3b_reader_counters, floor=50),
-    Rule('C20.R4', 'segments re-formatted with source delimiters, once each, eol = LF or empty', r4_format, floor=4),
+    Rule('C20.R1', 'input is read by path through X12Reader, which opens it in a valid text read mode', r1_open_mode, floor=2),
+    Rule('C20.R2', 'every output option receives the buffer (must-pass-through)', r2_outputs, floor=3),
+    Rule('C20.R3', 'repair table agrees with the reader: codes, tuple position, expressions', r3_repair_table, floor=10),
+    Rule('C20.R3b', 'shared with C04.R1: the reader counters the repair reads are reset/incremented where the envelope says', r3b_reader_counters, floor=37),
+    Rule('C20.R4', 'segments re-formatted with source delimiters, once each, eol = LF or empty', r4_format, floor=3),
 ]
